@@ -164,7 +164,7 @@ Definition codec_iface_calls_bad : list (string * string * string) :=
   flat_map (fun x => match x with (p, t, c, m, evs) =>
      if String.eqb c "codec"
      then map (fun n => (p, m, n))
-              (filter (fun n => negb (String.eqb n "Parameters.GetParameter")) (ev_names "I" evs))
+              (filter (fun n => negb (String.eqb n "iface.GetParameter")) (ev_names "I" evs))
      else [] end) method_events.
 (* (4) GetParameter of every parameter type writes nothing *)
 Definition getparameter_writes : list (string * string) :=
@@ -212,7 +212,7 @@ Proof. repeat split; vm_compute; reflexivity. Qed.
    two fields (write/write and write/read in Encode's `htj2kParams.BlockWidth`). *)
 Lemma validate_unguarded_writes_now :
   validate_unguarded_writes =
-    [("jpeg2000/htj2k", "Parameters", "BlockWidth"); ("jpeg2000/htj2k", "Parameters", "BlockHeight")].
+    [("jpeg2000/htj2k", "Parameters_go", "BlockWidth"); ("jpeg2000/htj2k", "Parameters_go", "BlockHeight")].
 Proof. vm_compute. reflexivity. Qed.
 
 (* FINDING (C18), second: Decode of the JPEG-LS near-lossless codec calls
@@ -220,7 +220,7 @@ Proof. vm_compute. reflexivity. Qed.
    (jpegls/nearlossless/codec.go), i.e. it writes a shared object: concurrent Decode calls
    race with each other (write/write on NEAR) and with Encode's Validate (read). *)
 Lemma codec_iface_calls_bad_now :
-  codec_iface_calls_bad = [("jpegls/nearlossless", "Decode", "Parameters.SetParameter")].
+  codec_iface_calls_bad = [("jpegls/nearlossless", "Decode", "iface.SetParameter")].
 Proof. vm_compute. reflexivity. Qed.
 
 Theorem facts_ok_refuted : facts_ok_full = false.
@@ -232,8 +232,8 @@ Theorem facts_ok_partial :
   codec_shared_stores = [] /\ param_store_violations = [] /\ codec_shared_calls_bad = [] /\
   getparameter_writes = [] /\
   (forall v, In v validate_unguarded_writes ->
-     fst (fst v) = "jpeg2000/htj2k" /\ snd (fst v) = "Parameters") /\
-  (forall v, In v codec_iface_calls_bad -> v = ("jpegls/nearlossless", "Decode", "Parameters.SetParameter")).
+     fst (fst v) = "jpeg2000/htj2k" /\ snd (fst v) = "Parameters_go") /\
+  (forall v, In v codec_iface_calls_bad -> v = ("jpegls/nearlossless", "Decode", "iface.SetParameter")).
 Proof.
   split; [apply pkg_level_ok_true|]. split; [apply imports_ok_true|].
   split; [apply nondet_ok_true|]. split; [apply codec_receiver_ok_true|].
